@@ -46,10 +46,18 @@ def run(ctx):
     open(os.path.join(d, "decl.foi"), "w").write("package_info ext =\n  let Zed: int->int\n")
     open(os.path.join(d, "a.fo"), "w").write("package main\n\nlet fa (x:int) =\n  x + 1\n")
     open(os.path.join(d, "sub", "b.fo"), "w").write("package main\n\nlet fb (x:int) =\n  fa (ext.Zed x)\n")
-    p = subprocess.run([fc, "decl.foi", "a.fo", os.path.join("sub", "b.fo")], cwd=d, stdout=subprocess.PIPE, stderr=subprocess.PIPE, text=True, timeout=60)
+    # names with further dots, dashes, a common first component, a dotted directory: X is the file name
+    # without its .fo suffix, whatever else it contains
+    odd = ["geo.types.fo", "geo.ops.fo", "x-y_z.fo", os.path.join("dir.v2", "m.n.fo"), "twice.fo.fo"]
+    os.makedirs(os.path.join(d, "dir.v2"))
+    for k, name in enumerate(odd):
+        open(os.path.join(d, name), "w").write("package main\n\nlet odd%d (x:int) =\n  x + %d\n" % (k, k))
+    p = subprocess.run([fc, "decl.foi", "a.fo", os.path.join("sub", "b.fo")] + odd, cwd=d, stdout=subprocess.PIPE, stderr=subprocess.PIPE, text=True, timeout=60)
     files = sorted(os.path.relpath(os.path.join(dp, f), d) for dp, _, fs in os.walk(d) for f in fs)
-    want = ["a.fo", "decl.foi", "gen_a.go", "sub/b.fo", "sub/gen_b.go"]
-    okf = p.returncode == 0 and files == want and "fa(ext.Zed(x))" in open(os.path.join(d, "sub", "gen_b.go")).read()
+    want = sorted(["a.fo", "decl.foi", "gen_a.go", "sub/b.fo", "sub/gen_b.go"] + odd +
+                  [os.path.join(os.path.dirname(n), "gen_" + os.path.basename(n)[:-3] + ".go") for n in odd])
+    okf = p.returncode == 0 and files == want and "fa(ext.Zed(x))" in open(os.path.join(d, "sub", "gen_b.go")).read() and \
+        all(("func odd%d(" % k) in open(os.path.join(d, os.path.dirname(n), "gen_" + os.path.basename(n)[:-3] + ".go")).read() for k, n in enumerate(odd))
     ctx.evaluations += 1
     ctx.obligations.append(("binary:output naming and later files see earlier definitions", okf, "" if okf else "rc=%s files=%s out=%s" % (p.returncode, files, p.stdout[-300:])))
     if not okf:
